@@ -299,7 +299,11 @@ func intervalHistories(c *evid.Ctx) {
 		adv  time.Duration
 		iv   int
 	}
-	ops := []op{{"log(X)", "WX001", 0, -1}, {"log(Y)", "WY002", 0, -1}, {"+2s", "", 2 * time.Second, -1}, {"+11s", "", 11 * time.Second, -1},
+	// the ids are the first ten characters of the message (the formatted calls derive the id that way);
+	// Errorf and Warn pass the level gate (level WARN), Infof does not: a call that the level gate drops
+	// writes nothing and must leave no trace in the suppression cache either
+	ops := []op{{"Errorf(X)", "WX001-idAA", 0, -1}, {"Warn(X)", "WX001-idAA", 0, -1}, {"Infof(X)", "WX001-idAA", 0, -1}, {"Println(Y)", "WY002", 0, -1},
+		{"+2s", "", 2 * time.Second, -1}, {"+11s", "", 11 * time.Second, -1},
 		{"interval=0", "", 0, 0}, {"interval=1s", "", 0, 1}, {"interval=10s", "", 0, 10}}
 	var rec func(hist []op)
 	run := func(hist []op) {
@@ -332,12 +336,23 @@ func intervalHistories(c *evid.Ctx) {
 				l := line{id: o.id, at: now, payload: fmt.Sprintf("payload-%d-of-%s", i, o.id)}
 				lw, seen := lastWritten[o.id]
 				switch {
+				case o.name == "Infof(X)":
+					l.must = "dropped"
 				case iv == 0 || !seen || now.Sub(lw) >= time.Duration(iv)*time.Second:
 					l.must = "written"
 				case constSince[o.id]:
 					l.must = "suppressed"
 				}
-				fl.Println(o.id, l.payload)
+				switch o.name {
+				case "Errorf(X)":
+					fl.Errorf("%s %s", o.id, l.payload)
+				case "Warn(X)":
+					fl.Warn(o.id, l.payload)
+				case "Infof(X)":
+					fl.Infof("%s %s", o.id, l.payload)
+				default:
+					fl.Println(o.id, l.payload)
+				}
 				lines = append(lines, l)
 			case o.adv > 0:
 				vtime.Advance(o.adv)
@@ -358,6 +373,13 @@ func intervalHistories(c *evid.Ctx) {
 				}
 				l := &lines[len(lines)-1]
 				written := strings.Contains(all.String(), l.payload)
+				if l.must == "dropped" {
+					if written {
+						c.Violation("C17:interval-history:level", fmt.Sprintf("history%s: the last message is below the configured level and was written", desc), map[string]interface{}{"engine": "E2", "history": desc})
+						return
+					}
+					continue
+				}
 				if l.must == "written" && !written {
 					c.Violation("C17:interval-history:lost-line", fmt.Sprintf("history%s: the last message (id %s) is not in the log although no line with its id was written within the interval now in force (%d s)", desc, l.id, iv), map[string]interface{}{"engine": "E2", "history": desc})
 					return
